@@ -20,12 +20,13 @@ abbrev Val := Shape × List Int
 
 inductive Err where
   | valueError | indexError | typeError | invalidBackprop | assertion | recursion | other
+  | unmodelled   -- the model declines: behaviour outside the modelled fragment (the harness stops comparing)
   deriving DecidableEq, Repr, Inhabited
 
 def Err.name : Err → String
   | .valueError => "ValueError" | .indexError => "IndexError" | .typeError => "TypeError"
   | .invalidBackprop => "InvalidBackprop" | .assertion => "AssertionError"
-  | .recursion => "RecursionError" | .other => "Other"
+  | .recursion => "RecursionError" | .other => "Other" | .unmodelled => "UNMODELLED"
 
 /-- an ndarray object: a window into a buffer -/
 structure Arr where
@@ -353,11 +354,19 @@ def wrapOperands (h : Heap) : List Operand → Heap × List Nat
 /-- the public `.base` property is just `_base` -/
 def Heap.baseOf (h : Heap) (i : Nat) : Option Nat := (h.t i).base
 
+/-- the `constant` flag of an op's result: the flag passed by the caller always wins; otherwise the
+result is constant exactly when every input is -/
+def resultConst (constant : Option Bool) (h : Heap) (vars : List Nat) : Bool :=
+  match constant with
+  | some c => c
+  | none => !(vars.any fun v => !(h.t v).const)
+
 /-- `Tensor._op(Op, *inputs, constant=…)` for a non-`out=` call with graph tracking on.
 Returns the new heap and the id of the result tensor. -/
 def opStep (h : Heap) (kind : Kind) (inputs : List Operand) (constant : Option Bool := none)
     (whereMask : Option (Shape × List Bool) := none) : Except Err (Heap × Nat) :=
   let (h, vars) := wrapOperands h inputs
+  let hw := h                                            -- the heap in which the inputs' flags are read
   let userTensors := inputs.filterMap fun | .t i => some i | _ => none
   -- forward
   let fwd : Except Err (Heap × Arr × Option Nat) :=      -- (heap, out array, parent var of a view)
@@ -399,13 +408,8 @@ def opStep (h : Heap) (kind : Kind) (inputs : List Operand) (constant : Option B
       let tv := h.t v
       let h := if tv.base.isSome ∧ tv.creator.isNone then h.modT v ({ · with base := none }) else h
       if base.isNone then h.modT v ({ · with grad := none, viewGrad := none }) else h) h
-    -- constant inference
-    let outConst : Option Bool :=
-      match constant with
-      | some c => some c
-      | none => if vars.any fun v => !(h.t v).const then none else some true
-    -- float data: `constant=None` means non-constant
-    let c := outConst.getD false
+    -- constant inference (float data: `constant=None` means non-constant unless every input is constant)
+    let c := resultConst constant hw vars
     let (h, f) := h.fresh
     let h := h.setOp f { kind := kind, vars := vars, whereMask := whereMask,
                          forceConst := if base.isSome then constant else none }
@@ -523,21 +527,21 @@ def opBackward (h : Heap) (f : Nat) (g : Val) (gr : GMap) : GMap × Option Err :
 and caches the result in `_view_grad`; the cache is valid while it is a view of the *current*
 `_grad` array of the base (`self._view_grad.base is self._base._grad`).  Reading the property
 therefore changes the heap. -/
-def gradProp (fuel : Nat) (h : Heap) (t : Nat) : Heap × Option Val :=
+def gradPropObj (fuel : Nat) (h : Heap) (t : Nat) : Heap × Option (Val × Nat) :=
   match fuel with
   | 0 => (h, none)
   | fuel + 1 =>
     let tt := h.t t
     match tt.base with
-    | none => (h, tt.grad)
+    | none => (h, tt.grad.map fun g => (g, tt.gradObj))
     | some b =>
       let tb := h.t b
       -- a non-constant view of a constant base owns its gradient; a constant view has none
-      if tb.const then (h, tt.grad)
+      if tb.const then (h, tt.grad.map fun g => (g, tt.gradObj))
       else if tt.const then (h, none)
       else
-      let cached : Option Val := match tt.viewGrad with
-        | some (v, o) => if tb.grad.isSome ∧ o = tb.gradObj then some v else none
+      let cached : Option (Val × Nat) := match tt.viewGrad with
+        | some (v, o) => if tb.grad.isSome ∧ o = tb.gradObj then some (v, o) else none
         | none => none
       match cached with
       | some v => (h, some v)
@@ -547,14 +551,20 @@ def gradProp (fuel : Nat) (h : Heap) (t : Nat) : Heap × Option Val :=
           | none => (h, none)
           | some f =>
             let o := h.op f
-            let (h, pg) := gradProp fuel h (o.vars.getD 0 0)
-            let r : Option Val := match pg, o.kind with
-              | some pg, .view vf =>
+            -- the parent's gradient, together with the identity of the array it is (a view of)
+            let (h, pg) := gradPropObj fuel h (o.vars.getD 0 0)
+            let r : Option (Val × Nat) := match pg, o.kind with
+              | some (pg, src), .view vf =>
                 match vf.indexMap pg.1 with
-                | .ok (sh, ps) => some (sh, gather ps pg.2)
+                | .ok (sh, ps) => some ((sh, gather ps pg.2), src)
                 | .error _ => none
               | _, _ => none
-            (h.modT t ({ · with viewGrad := r.map fun v => (v, (h.t b).gradObj) }), r)
+            (h.modT t ({ · with viewGrad := r }), r)
+
+/-- the public `.grad` property -/
+def gradProp (fuel : Nat) (h : Heap) (t : Nat) : Heap × Option Val :=
+  let (h, r) := gradPropObj fuel h t
+  (h, r.map (·.1))
 
 def Heap.fuel (h : Heap) : Nat := h.next + 2
 
